@@ -48,6 +48,8 @@ def correspondence(ctx):
                 "error on empty input, the caller's slice before/after, the duplicate notice. Non-trivial = distinct input list containing a duplicate or a twin.")
     rng = ctx.rng
     lists = [list(l) for l in wlgen.LISTS_FIXED] + [[]]
+    # the empty string is a word like any other for the constructor ("drops nothing else"; what Generate then does with it is F7)
+    lists += [["alpha", "", "beta"], [""], ["", ""], ["", "a", "A"], ["x", "", "X", ""]]
     for _ in range(120 if ctx.tier == "quick" else 1500):
         lists.append(wlgen.gen_list(rng))
     reps = 6 if ctx.tier == "quick" else 24
